@@ -1,6 +1,8 @@
 """Shared helpers for the connection rules (C05, C06, C07, C09, C19): locate the read/write/read_buf bodies of the
 blocking and tokio `Framed`, and answer path questions that work the same for a plain fn and for the
 pre-transform MIR of an async fn (where `.await` is into_future + poll loop + Yield)."""
+import re
+
 from mirq import callee, origin_calls, strip_refs
 
 IMPLS = {
@@ -29,6 +31,7 @@ def impls_present(ctx):
     return feats
 
 
+CODEC_ENTRY = ("::decode", "::encode", "::new", "::mode")
 ANCHOR_METHODS = ("::read", "::read_buf", "::write", "::handshake", "::new", "::verify_version")
 
 
@@ -42,8 +45,17 @@ def body(ctx, rep, rule, impl, which):
     prefix = IMPLS[impl]["framed"] + "::"
 
     def want(d):
-        # private (non-anchor, non-async) helper methods of the same Framed impl are analysed in place
-        return d.startswith(prefix) and not d.endswith(ANCHOR_METHODS) and "{closure" not in d
+        # private (non-anchor, non-async) helper methods of the same Framed impl are analysed in place - and so are helpers the
+        # two implementations share: free functions of insim::net and Codec methods other than the codec's own entry points
+        if "{closure" in d:
+            return False
+        if d.startswith(prefix) and not d.endswith(ANCHOR_METHODS):
+            return True
+        if re.match(r"^insim::net::[a-z_0-9]+$", d):
+            return True
+        if d.startswith("insim::net::codec::Codec::") and not d.endswith(CODEC_ENTRY):
+            return True
+        return False
     from mirq import inline_calls, inline_async
     ib = inline_async(b, lambda d: d.startswith(prefix) and not d.endswith(ANCHOR_METHODS), depth=3)
     ib = inline_calls(ib, want)
